@@ -4,15 +4,30 @@
 // scratch configuration roots (one per case, removed afterwards).
 //
 //	part "entries": every ordered sequence of <= N (quick 3, thorough 4) directory entries
-//	                over a 14-kind alphabet (= every multiset x every file-name ordering,
+//	                over an 18-kind alphabet (= every multiset x every file-name ordering,
 //	                so a good entry sorts before, after and between bad ones) x the three
 //	                valid store types, in an ordinary named store "s";
 //	part "paths":   every store type x store name x kind of object found at the store
 //	                path (missing / directory / symlink to a directory / regular file),
-//	                with a fixed good content.
+//	                with a fixed good content, x two contents of the alias stores;
+//	both again on a trust-store object that loaded other stores before (Prior);
+//	part "history": ONE trust-store object loads the same store, the store is changed IN PLACE
+//	                (an entry overwritten by every other kind, removed, added; the modification
+//	                times of the directory and of overwritten files are put back, so that only
+//	                the content differs) and is loaded again (thorough: and changed back and
+//	                loaded a third time); every load is judged by the reference for the content
+//	                that is on disk at that moment (E2, histories on one instance). Contents
+//	                before the edit: <= 2 entries (quick) / <= 3 (thorough); histories in which
+//	                every state must be refused are run by thorough up to 2 entries only;
+//	part "path-history": the same with the object at the store path changing its kind.
 //
 // Every case carries decoy certificates (valid roots) in the parent of the store path
-// (the type directory), in truststore/x509, in a sibling store and in a sibling type.
+// (the type directory), in truststore/x509, in a sibling store and in a sibling type, and
+// loadable ALIAS stores at the places a normalising loader might look instead: the store
+// type and/or store name in the other letter case / trimmed (hand-written aliases).
+// Entry kinds collide by construction: issuer name == subject name with a foreign
+// signature, own-key signature with a foreign issuer name, a self-signed certificate and
+// its twin with one signature byte changed (same size, same names, same key).
 //
 // Oracle: a reference loader over the GENERATOR'S description of the case (the disk is
 // never re-scanned and no certificate file is parsed by the oracle; validity of types,
@@ -22,11 +37,15 @@
 //   - a self-signed certificate that is not a CA, in a tsa store, is not classified by the
 //     statement ("self-signed roots": self-signed yes, root CA no): either outcome is
 //     accepted, but a successful load must still return exactly the files' certificates.
+//   - "self-signed" = the signature verifies under the certificate's own key; "root" =
+//     self-signed and issuer name == subject name.
 //   - the statement says "exactly the certificates of those files", not their order: the
 //     set (multiset of raw certificates) is judged, the order is only recorded.
 //   - "It then returns exactly the certificates of those files": a store that meets every
 //     condition must load; the refusal of a hand-labelled valid store is reported under its
 //     own key family (load/refused-valid-store:...), these cases are the positive controls.
+//   - "those files" are the files at the time of the call: a later call on the same object
+//     is judged like a first call.
 //   - a panic of the loader is reported as an infrastructure error, not as a violation.
 package main
 
@@ -42,6 +61,8 @@ import (
 	"sort"
 	"strings"
 	"sync"
+	"sync/atomic"
+	"time"
 
 	"github.com/notaryproject/notation-go/dir"
 	"github.com/notaryproject/notation-go/verifier/truststore"
@@ -82,6 +103,11 @@ var kinds = []kindDef{
 	// two more multi-certificate files (not in DESIGN's list): the SECOND certificate decides
 	{"pem-ca+leaf-issued-by-ca", bad, bad, "not-ca-or-self-signed"},
 	{"pem-ca+intermediate-ca", good, bad, "tsa-non-root"},
+	// collisions by construction: only the judged attribute (who signed) tells them from a good entry
+	{"self-issued-leaf-signed-by-other-key", bad, bad, "not-ca-or-self-signed"}, // issuer name == subject name, not a CA, signature of another key
+	{"self-signed-leaf-corrupted-signature", bad, bad, "not-ca-or-self-signed"}, // the self-signed-non-ca of the same position with one signature byte changed
+	{"self-issued-ca-signed-by-other-key", good, bad, "tsa-non-root"},           // CA, issuer name == subject name, signature of another key
+	{"ca-signed-by-own-key-other-issuer-name", good, bad, "tsa-non-root"},       // CA, signature of its own key, issuer name of somebody else
 }
 
 const (
@@ -99,7 +125,13 @@ const (
 	kDangling
 	kMultiLeaf
 	kMultiInter
+	kSelfIssuedLeaf
+	kCorruptLeaf
+	kSelfIssuedCA
+	kOwnKeyOtherName
 )
+
+const hole = -1 // no entry at this position (removed, or not yet added)
 
 func kindIndex(name string) int {
 	for i, k := range kinds {
@@ -107,62 +139,72 @@ func kindIndex(name string) int {
 			return i
 		}
 	}
-	return -1
+	return -2
 }
 
 type labelled struct {
 	Value string
 	Label string
 	Valid bool
+	Alias string // what a normalising loader (case folding, trimming) might turn the value into; "" none
 }
 
-// store types; the first seven are the quick alphabet
+// store types; the first nine are the quick alphabet
 var storeTypes = []labelled{
-	{"ca", "ca", true},
-	{"signingAuthority", "signingAuthority", true},
-	{"tsa", "tsa", true},
-	{"", "empty", false},
-	{"CA", "upper-case", false},
-	{"ca/x", "separator", false},
-	{"../ca", "dotdot", false},
+	{"ca", "ca", true, "CA"},
+	{"signingAuthority", "signingAuthority", true, "signingauthority"},
+	{"tsa", "tsa", true, "TSA"},
+	{"", "empty", false, ""},
+	{"CA", "upper-case", false, "ca"},
+	{"ca/x", "separator", false, ""},
+	{"../ca", "dotdot", false, ""},
+	{"TSA", "upper-case-tsa", false, "tsa"},
+	{"signingauthority", "lower-case", false, "signingAuthority"},
 	// thorough only
-	{"tsa/", "trailing-separator", false},
-	{"signingauthority", "lower-case", false},
-	{"ca ", "trailing-blank", false},
-	{".", "dot", false},
-	{"ca/../tsa", "dotdot-inside", false},
+	{"tsa/", "trailing-separator", false, ""},
+	{"ca ", "trailing-blank", false, "ca"},
+	{".", "dot", false, ""},
+	{"ca/../tsa", "dotdot-inside", false, ""},
+	{"Tsa", "capitalised-tsa", false, "tsa"},
+	{"SIGNINGAUTHORITY", "upper-case-signingAuthority", false, "signingAuthority"},
+	{"SigningAuthority", "capitalised-signingAuthority", false, "signingAuthority"},
+	{"cA", "mixed-case-ca", false, "ca"},
+	{" tsa", "leading-blank", false, "tsa"},
 }
 
-const quickTypes = 7
+const quickTypes = 9
 
 // store names; the first ten are the quick alphabet
 var storeNames = []labelled{
-	{"s", "plain", true},
-	{"a.b", "dotted", true},
-	{"a_b-c", "underscore-dash", true},
-	{".", "dot", false},
-	{"..", "dotdot", false},
-	{"...", "three-dots", true}, // a legal, ordinary directory entry name
-	{"", "empty", false},
-	{"a/b", "separator", false},
-	{"a b", "blank", false},
-	{"s/../s", "dotdot-inside", false},
+	{"s", "plain", true, "S"},
+	{"a.b", "dotted", true, "A.B"},
+	{"a_b-c", "underscore-dash", true, "A_B-C"},
+	{".", "dot", false, ""},
+	{"..", "dotdot", false, ""},
+	{"...", "three-dots", true, ""}, // a legal, ordinary directory entry name
+	{"", "empty", false, ""},
+	{"a/b", "separator", false, ""},
+	{"a b", "blank", false, "ab"},
+	{"s/../s", "dotdot-inside", false, ""},
 	// thorough only
-	{".s", "leading-dot", true},
-	{"a..b", "double-dot-inside", true},
-	{"-", "dash", true},
-	{"S9", "upper-case-digit", true},
-	{"s/", "trailing-separator", false},
-	{"/s", "leading-separator", false},
-	{"./s", "dot-separator", false},
-	{"a\\b", "backslash", false},
-	{"s\n", "trailing-newline", false},
-	{"s*", "star", false},
+	{".s", "leading-dot", true, ".S"},
+	{"a..b", "double-dot-inside", true, ""},
+	{"-", "dash", true, ""},
+	{"S9", "upper-case-digit", true, "s9"},
+	{"s/", "trailing-separator", false, ""},
+	{"/s", "leading-separator", false, ""},
+	{"./s", "dot-separator", false, ""},
+	{"a\\b", "backslash", false, ""},
+	{"s\n", "trailing-newline", false, "s"},
+	{"s*", "star", false, "s"},
+	{"s ", "trailing-blank", false, "s"},
 }
 
 const quickNames = 10
 
 var pathKinds = []string{"missing", "directory", "symlink-to-directory", "regular-file"}
+
+var validTypes = []string{"signingAuthority", "ca", "tsa"}
 
 func lookup(tab []labelled, v string) (labelled, bool) {
 	for _, l := range tab {
@@ -187,8 +229,10 @@ var (
 	mats       [][]material // [kind][position]
 	decoyNames = []string{"parent-of-store(type-directory)", "truststore/x509", "sibling-store", "sibling-type"}
 	decoys     []*x509.Certificate
-	fileAtPath *x509.Certificate // content of the regular file found at the store path (path kind regular-file)
-	hidden     map[string]string // raw -> description, certificates that are on disk but in no regular entry
+	aliasRoots []*x509.Certificate // one per alias store
+	aliasInter *x509.Certificate   // a non-root CA (alias content "root+intermediate")
+	fileAtPath *x509.Certificate   // content of the regular file found at the store path (path kind regular-file)
+	hidden     map[string]string   // raw -> description, certificates that are on disk but in no regular entry
 )
 
 func ca(cn string, key int, issuer *pki.Cert) *pki.Cert {
@@ -197,6 +241,10 @@ func ca(cn string, key int, issuer *pki.Cert) *pki.Cert {
 
 func ee(cn string, key int, issuer *pki.Cert) *pki.Cert {
 	return pki.Make(pki.Tmpl{Subject: pki.Name(cn)}, pki.Key(pki.EC256, key), issuer)
+}
+
+func one(c *x509.Certificate) material {
+	return material{file: pki.PEM(c), certs: []*x509.Certificate{c}}
 }
 
 func buildMaterial() error {
@@ -214,18 +262,26 @@ func buildMaterial() error {
 	}
 	for p := 0; p < maxPos; p++ {
 		c := ca(fmt.Sprintf("c13 pem-ca %d", p), 0, nil)
-		mats[kPEMCA][p] = material{file: pki.PEM(c.Cert), certs: []*x509.Certificate{c.Cert}}
+		mats[kPEMCA][p] = one(c.Cert)
 		c = ca(fmt.Sprintf("c13 der-ca %d", p), 0, nil)
 		mats[kDERCA][p] = material{file: c.Cert.Raw, certs: []*x509.Certificate{c.Cert}}
 		c = ca(fmt.Sprintf("c13 multi-ca %d", p), 0, nil)
 		l := ee(fmt.Sprintf("c13 multi-self-signed-leaf %d", p), 2, nil)
 		mats[kMulti][p] = material{file: pki.PEM(c.Cert, l.Cert), certs: []*x509.Certificate{c.Cert, l.Cert}}
 		l = ee(fmt.Sprintf("c13 self-signed-non-ca %d", p), 2, nil)
-		mats[kSelfSigned][p] = material{file: pki.PEM(l.Cert), certs: []*x509.Certificate{l.Cert}}
+		mats[kSelfSigned][p] = one(l.Cert)
+		// the same certificate with the last signature byte changed: same size, names, key, serial number
+		raw := append([]byte(nil), l.Cert.Raw...)
+		raw[len(raw)-1] ^= 0x01
+		corrupted, err := x509.ParseCertificate(raw)
+		if err != nil {
+			return fmt.Errorf("corrupted-signature twin does not parse: %v", err)
+		}
+		mats[kCorruptLeaf][p] = one(corrupted)
 		l = ee(fmt.Sprintf("c13 leaf-issued-by-ca %d", p), 2, issuer)
-		mats[kLeaf][p] = material{file: pki.PEM(l.Cert), certs: []*x509.Certificate{l.Cert}}
+		mats[kLeaf][p] = one(l.Cert)
 		c = ca(fmt.Sprintf("c13 intermediate-ca %d", p), 1, issuer)
-		mats[kInter][p] = material{file: pki.PEM(c.Cert), certs: []*x509.Certificate{c.Cert}}
+		mats[kInter][p] = one(c.Cert)
 		mats[kGarbage][p] = material{file: []byte(fmt.Sprintf("this is not a certificate (%d)\n\x00\x01\x02\xff\xfe", p))}
 		mats[kEmpty][p] = material{file: []byte{}}
 		mats[kPrivKey][p] = material{file: pem.EncodeToMemory(&pem.Block{Type: "PRIVATE KEY", Bytes: keyDER})}
@@ -242,16 +298,32 @@ func buildMaterial() error {
 		c = ca(fmt.Sprintf("c13 multi3-ca %d", p), 0, nil)
 		c2 := ca(fmt.Sprintf("c13 multi3-intermediate-ca %d", p), 1, issuer)
 		mats[kMultiInter][p] = material{file: pki.PEM(c.Cert, c2.Cert), certs: []*x509.Certificate{c.Cert, c2.Cert}}
+		// issuer name == subject name, signed by the key of a namesake (key 0), own key 2 / 1
+		cn := fmt.Sprintf("c13 self-issued-leaf %d", p)
+		l = ee(cn, 2, ca(cn, 0, nil))
+		mats[kSelfIssuedLeaf][p] = one(l.Cert)
+		cn = fmt.Sprintf("c13 self-issued-ca %d", p)
+		c = ca(cn, 1, ca(cn, 0, nil))
+		mats[kSelfIssuedCA][p] = one(c.Cert)
+		// signed by its own key (key 1) but naming another issuer (a namesake-less CA that has the same key)
+		c = ca(fmt.Sprintf("c13 own-key-ca %d", p), 1, ca(fmt.Sprintf("c13 somebody else %d", p), 1, nil))
+		mats[kOwnKeyOtherName][p] = one(c.Cert)
 	}
 	for _, n := range decoyNames {
 		decoys = append(decoys, ca("c13 decoy "+n, 0, nil).Cert)
 	}
+	for i := 0; i < 3; i++ {
+		aliasRoots = append(aliasRoots, ca(fmt.Sprintf("c13 alias store %d", i), 0, nil).Cert)
+	}
+	aliasInter = ca("c13 alias store intermediate", 1, issuer).Cert
 	fileAtPath = ca("c13 regular file at the store path", 0, nil).Cert
 
 	// the labels of the alphabet must be true of the material (checked with crypto/x509 only)
-	selfSigned := func(c *x509.Certificate) bool {
-		return c.CheckSignature(c.SignatureAlgorithm, c.RawTBSCertificate, c.Signature) == nil && bytes.Equal(c.RawSubject, c.RawIssuer)
+	ownKey := func(c *x509.Certificate) bool {
+		return c.CheckSignature(c.SignatureAlgorithm, c.RawTBSCertificate, c.Signature) == nil
 	}
+	selfIssued := func(c *x509.Certificate) bool { return bytes.Equal(c.RawSubject, c.RawIssuer) }
+	selfSigned := func(c *x509.Certificate) bool { return ownKey(c) && selfIssued(c) }
 	for p := 0; p < maxPos; p++ {
 		for _, k := range []int{kPEMCA, kDERCA} {
 			if c := mats[k][p].certs[0]; !c.IsCA || !selfSigned(c) {
@@ -264,17 +336,30 @@ func buildMaterial() error {
 		if c := mats[kSelfSigned][p].certs[0]; c.IsCA || !selfSigned(c) {
 			return fmt.Errorf("material self-signed-non-ca/%d mislabelled", p)
 		}
-		if c := mats[kLeaf][p].certs[0]; c.IsCA || selfSigned(c) || c.CheckSignatureFrom(issuer.Cert) != nil {
+		if c := mats[kLeaf][p].certs[0]; c.IsCA || ownKey(c) || selfIssued(c) || c.CheckSignatureFrom(issuer.Cert) != nil {
 			return fmt.Errorf("material leaf-issued-by-ca/%d mislabelled", p)
 		}
-		if c := mats[kInter][p].certs[0]; !c.IsCA || selfSigned(c) || c.CheckSignatureFrom(issuer.Cert) != nil {
+		if c := mats[kInter][p].certs[0]; !c.IsCA || ownKey(c) || selfIssued(c) || c.CheckSignatureFrom(issuer.Cert) != nil {
 			return fmt.Errorf("material intermediate-ca/%d mislabelled", p)
 		}
-		if m := mats[kMultiLeaf][p].certs; !m[0].IsCA || !selfSigned(m[0]) || m[1].IsCA || selfSigned(m[1]) {
+		if m := mats[kMultiLeaf][p].certs; !m[0].IsCA || !selfSigned(m[0]) || m[1].IsCA || ownKey(m[1]) {
 			return fmt.Errorf("material pem-ca+leaf-issued-by-ca/%d mislabelled", p)
 		}
-		if m := mats[kMultiInter][p].certs; !m[0].IsCA || !selfSigned(m[0]) || !m[1].IsCA || selfSigned(m[1]) {
+		if m := mats[kMultiInter][p].certs; !m[0].IsCA || !selfSigned(m[0]) || !m[1].IsCA || ownKey(m[1]) {
 			return fmt.Errorf("material pem-ca+intermediate-ca/%d mislabelled", p)
+		}
+		if c := mats[kSelfIssuedLeaf][p].certs[0]; c.IsCA || ownKey(c) || !selfIssued(c) {
+			return fmt.Errorf("material self-issued-leaf-signed-by-other-key/%d mislabelled", p)
+		}
+		if c, o := mats[kCorruptLeaf][p].certs[0], mats[kSelfSigned][p].certs[0]; c.IsCA || ownKey(c) || !selfIssued(c) ||
+			len(c.Raw) != len(o.Raw) || !bytes.Equal(c.RawTBSCertificate, o.RawTBSCertificate) || len(mats[kCorruptLeaf][p].file) != len(mats[kSelfSigned][p].file) {
+			return fmt.Errorf("material self-signed-leaf-corrupted-signature/%d mislabelled", p)
+		}
+		if c := mats[kSelfIssuedCA][p].certs[0]; !c.IsCA || ownKey(c) || !selfIssued(c) {
+			return fmt.Errorf("material self-issued-ca-signed-by-other-key/%d mislabelled", p)
+		}
+		if c := mats[kOwnKeyOtherName][p].certs[0]; !c.IsCA || !ownKey(c) || selfIssued(c) {
+			return fmt.Errorf("material ca-signed-by-own-key-other-issuer-name/%d mislabelled", p)
 		}
 	}
 	return nil
@@ -282,19 +367,37 @@ func buildMaterial() error {
 
 // ---------------------------------------------------------------- cases
 
+// step is a later state of the same store path, followed by another load on the same trust-store object.
+type step struct {
+	Path    string   `json:"path_kind"`
+	Entries []string `json:"entries"` // "" = no entry at this position
+}
+
 type loadCase struct {
-	Part    string   `json:"part"` // "entries" | "paths"
+	Part    string   `json:"part"` // "entries" | "paths" | "history" | "path-history"
 	Type    string   `json:"type"`
 	Name    string   `json:"name"`
 	Path    string   `json:"path_kind"`
-	Entries []string `json:"entries"` // entry kinds in file-name order (position i is file "f<i>-<kind>")
-	// Prior 1: the same trust-store instance first loaded the sibling store of the same type ("sibling") and the
-	// store of the same name in the other type (both hold a valid decoy); the judged load must behave as on a fresh instance.
+	Entries []string `json:"entries"` // entry kinds in file-name order (position i is file "f<i>-entry"; "" = none)
+	// Prior 1: the same trust-store instance first loaded the sibling store of the same type ("sibling"), the
+	// store of the same name in another type (both hold a valid decoy) and the alias stores; the judged load
+	// must behave as on a fresh instance.
 	Prior int `json:"prior,omitempty"`
+	// AliasContent: "" = every alias store holds one root; "root+intermediate" = a root and a non-root CA.
+	AliasContent string `json:"alias_content,omitempty"`
+	// Then: the store is changed in place (modification times put back) and loaded again by the same object.
+	Then []step `json:"then,omitempty"`
 }
 
 func (c loadCase) String() string {
-	return fmt.Sprintf("%s|type=%q|name=%q|path=%s|entries=%s|prior=%d", c.Part, c.Type, c.Name, c.Path, strings.Join(c.Entries, ","), c.Prior)
+	s := fmt.Sprintf("%s|type=%q|name=%q|path=%s|entries=%s|prior=%d", c.Part, c.Type, c.Name, c.Path, strings.Join(c.Entries, ","), c.Prior)
+	if c.AliasContent != "" {
+		s += "|alias=" + c.AliasContent
+	}
+	for _, t := range c.Then {
+		s += fmt.Sprintf("|then path=%s entries=%s", t.Path, strings.Join(t.Entries, ","))
+	}
+	return s
 }
 
 var goodContent = []string{"pem-ca", "der-ca"}
@@ -318,97 +421,161 @@ func sequences(n, maxLen int) [][]int {
 	return out
 }
 
+func kindNames(s []int) []string {
+	names := make([]string, len(s))
+	for i, k := range s {
+		if k >= 0 {
+			names[i] = kinds[k].Name
+		}
+	}
+	return names
+}
+
+// singleEdits returns every content that differs from a in one position: an entry replaced by
+// another kind, an entry removed, an entry added behind the last one.
+func singleEdits(a []int) [][]int {
+	var out [][]int
+	for i := range a {
+		for k := range kinds {
+			if k != a[i] {
+				b := append([]int(nil), a...)
+				b[i] = k
+				out = append(out, b)
+			}
+		}
+		b := append([]int(nil), a...)
+		b[i] = hole
+		out = append(out, b)
+	}
+	if len(a) < maxPos {
+		for k := range kinds {
+			out = append(out, append(append([]int(nil), a...), k))
+		}
+	}
+	return out
+}
+
 // ---------------------------------------------------------------- generator: description -> disk
 
 func within(p, base string) bool {
 	return p == base || strings.HasPrefix(p, base+string(filepath.Separator))
 }
 
-func entryFileName(pos, k int) string { return fmt.Sprintf("f%d-%s", pos, kinds[k].Name) }
+// file names do not depend on the kind, so that an entry can be replaced in place
+func entryFileName(pos int) string { return fmt.Sprintf("f%d-entry", pos) }
 
-// populate writes the entries into contentDir; things that must live outside the
-// store (symlink targets) go to <root>/elsewhere.
+// placeEntry creates the entry of kind k at position pos in contentDir; things that must
+// live outside the store (symlink targets) go to <root>/elsewhere.
+func placeEntry(root, contentDir string, pos, k int) error {
+	elsewhere := filepath.Join(root, "elsewhere")
+	m := mats[k][pos]
+	p := filepath.Join(contentDir, entryFileName(pos))
+	switch k {
+	case kSubdir:
+		if err := os.Mkdir(p, 0o755); err != nil {
+			return err
+		}
+		return os.WriteFile(filepath.Join(p, "inner.pem"), m.inner, 0o644)
+	case kSymlink:
+		if err := os.MkdirAll(elsewhere, 0o755); err != nil {
+			return err
+		}
+		t := filepath.Join(elsewhere, fmt.Sprintf("target-%d.pem", pos))
+		if err := os.WriteFile(t, m.inner, 0o644); err != nil {
+			return err
+		}
+		return os.Symlink(t, p)
+	case kDangling:
+		return os.Symlink(filepath.Join(elsewhere, fmt.Sprintf("no-such-file-%d", pos)), p)
+	}
+	return os.WriteFile(p, m.file, 0o644)
+}
+
 func populate(root, contentDir string, entries []int) error {
 	if err := os.MkdirAll(contentDir, 0o755); err != nil {
 		return err
 	}
-	elsewhere := filepath.Join(root, "elsewhere")
 	for pos, k := range entries {
-		m := mats[k][pos]
-		p := filepath.Join(contentDir, entryFileName(pos, k))
-		switch k {
-		case kSubdir:
-			if err := os.Mkdir(p, 0o755); err != nil {
-				return err
-			}
-			if err := os.WriteFile(filepath.Join(p, "inner.pem"), m.inner, 0o644); err != nil {
-				return err
-			}
-		case kSymlink:
-			if err := os.MkdirAll(elsewhere, 0o755); err != nil {
-				return err
-			}
-			t := filepath.Join(elsewhere, fmt.Sprintf("target-%d.pem", pos))
-			if err := os.WriteFile(t, m.inner, 0o644); err != nil {
-				return err
-			}
-			if err := os.Symlink(t, p); err != nil {
-				return err
-			}
-		case kDangling:
-			if err := os.Symlink(filepath.Join(elsewhere, fmt.Sprintf("no-such-file-%d", pos)), p); err != nil {
-				return err
-			}
-		default:
-			if err := os.WriteFile(p, m.file, 0o644); err != nil {
-				return err
-			}
+		if k == hole {
+			continue
+		}
+		if err := placeEntry(root, contentDir, pos, k); err != nil {
+			return err
 		}
 	}
 	return nil
 }
 
-// build materialises the case under root and returns which decoys were placed.
+func storePathOf(root string, c loadCase) string {
+	return filepath.Join(root, "truststore", "x509", c.Type, c.Name) // the layout truststore/x509/<type>/<name>
+}
+
+// placeStore creates the object of the given kind at the store path.
+func placeStore(root, storePath, pathKind string, entries []int) error {
+	switch pathKind {
+	case "missing":
+		return nil
+	case "directory":
+		return populate(root, storePath, entries)
+	case "symlink-to-directory":
+		realDir := filepath.Join(root, "elsewhere", "real-store")
+		if err := populate(root, realDir, entries); err != nil {
+			return err
+		}
+		return os.Symlink(realDir, storePath)
+	case "regular-file":
+		return os.WriteFile(storePath, pki.PEM(fileAtPath), 0o644)
+	}
+	return fmt.Errorf("unknown path kind %q", pathKind)
+}
+
+// otherTypeOf is a valid store type that is neither the case's type nor its alias.
+func otherTypeOf(c loadCase) string {
+	tl, _ := lookup(storeTypes, c.Type)
+	for _, t := range validTypes {
+		if t != c.Type && t != tl.Alias {
+			return t
+		}
+	}
+	return validTypes[0]
+}
+
+// aliasStores: the (type, name) pairs a normalising loader might look at instead of the named store.
+func aliasStores(c loadCase) [][2]string {
+	tl, _ := lookup(storeTypes, c.Type)
+	nl, _ := lookup(storeNames, c.Name)
+	var out [][2]string
+	if tl.Alias != "" {
+		out = append(out, [2]string{tl.Alias, c.Name})
+	}
+	if nl.Alias != "" {
+		out = append(out, [2]string{c.Type, nl.Alias})
+	}
+	if tl.Alias != "" && nl.Alias != "" {
+		out = append(out, [2]string{tl.Alias, nl.Alias})
+	}
+	return out
+}
+
+// build materialises the first state of the case under root and returns which decoys were placed.
 func build(root string, c loadCase, entries []int) (placed []bool, err error) {
 	x509dir := filepath.Join(root, "truststore", "x509")
-	storePath := filepath.Join(x509dir, c.Type, c.Name) // the layout truststore/x509/<type>/<name>
+	storePath := storePathOf(root, c)
 	if !within(storePath, root) || storePath == root {
 		return nil, fmt.Errorf("store path %q leaves the scratch root", storePath)
 	}
 	if err := os.MkdirAll(filepath.Dir(storePath), 0o755); err != nil {
 		return nil, err
 	}
-	switch c.Path {
-	case "missing":
-	case "directory":
-		if err := populate(root, storePath, entries); err != nil {
-			return nil, err
-		}
-	case "symlink-to-directory":
-		realDir := filepath.Join(root, "elsewhere", "real-store")
-		if err := populate(root, realDir, entries); err != nil {
-			return nil, err
-		}
-		if err := os.Symlink(realDir, storePath); err != nil {
-			return nil, err
-		}
-	case "regular-file":
-		if err := os.WriteFile(storePath, pki.PEM(fileAtPath), 0o644); err != nil {
-			return nil, err
-		}
-	default:
-		return nil, fmt.Errorf("unknown path kind %q", c.Path)
-	}
-	otherType := "signingAuthority"
-	if c.Type == otherType {
-		otherType = "ca"
+	if err := placeStore(root, storePath, c.Path, entries); err != nil {
+		return nil, err
 	}
 	parent := filepath.Dir(storePath)
 	locs := []string{
 		filepath.Join(parent, "decoy-parent.pem"),
 		filepath.Join(x509dir, "decoy-x509.pem"),
 		filepath.Join(parent, "sibling", "decoy-sibling-store.pem"),
-		filepath.Join(x509dir, otherType, c.Name, "decoy-sibling-type.pem"),
+		filepath.Join(x509dir, otherTypeOf(c), c.Name, "decoy-sibling-type.pem"),
 	}
 	placed = make([]bool, len(locs))
 	for i, l := range locs {
@@ -424,7 +591,88 @@ func build(root string, c loadCase, entries []int) (placed []bool, err error) {
 		}
 		placed[i] = true
 	}
+	// alias stores: real, loadable stores where a normalised type / name would point to
+	for i, a := range aliasStores(c) {
+		d := filepath.Join(x509dir, a[0], a[1])
+		if within(d, storePath) || within(storePath, d) || !within(d, x509dir) || d == x509dir {
+			continue
+		}
+		if err := os.MkdirAll(d, 0o755); err != nil {
+			return nil, fmt.Errorf("alias store %q/%q: %v", a[0], a[1], err)
+		}
+		if err := os.WriteFile(filepath.Join(d, "alias-0-root.pem"), pki.PEM(aliasRoots[i]), 0o644); err != nil {
+			return nil, err
+		}
+		if c.AliasContent == "root+intermediate" {
+			if err := os.WriteFile(filepath.Join(d, "alias-1-intermediate.pem"), pki.PEM(aliasInter), 0o644); err != nil {
+				return nil, err
+			}
+		}
+	}
 	return placed, nil
+}
+
+func isRegularKind(k int) bool { return k >= 0 && mats[k][0].file != nil }
+
+// applyStep turns the object at the store path from state (prevPath, prev) into (nextPath, next).
+// Directory -> directory is done IN PLACE: only the positions that differ are touched, a regular file
+// that becomes another regular file is overwritten (same inode), and the modification times of the
+// directory and of overwritten files are put back, so that nothing but the content differs.
+func applyStep(root, storePath, prevPath string, prev []int, nextPath string, next []int) error {
+	if prevPath != "directory" || nextPath != "directory" {
+		if err := os.RemoveAll(storePath); err != nil { // a symlink is removed, not followed
+			return err
+		}
+		if err := os.RemoveAll(filepath.Join(root, "elsewhere", "real-store")); err != nil {
+			return err
+		}
+		return placeStore(root, storePath, nextPath, next)
+	}
+	di, err := os.Lstat(storePath)
+	if err != nil {
+		return err
+	}
+	n := len(prev)
+	if len(next) > n {
+		n = len(next)
+	}
+	at := func(s []int, i int) int {
+		if i < len(s) {
+			return s[i]
+		}
+		return hole
+	}
+	for pos := 0; pos < n; pos++ {
+		pk, nk := at(prev, pos), at(next, pos)
+		if pk == nk {
+			continue
+		}
+		p := filepath.Join(storePath, entryFileName(pos))
+		if isRegularKind(pk) && isRegularKind(nk) {
+			fi, err := os.Lstat(p)
+			if err != nil {
+				return err
+			}
+			if err := os.WriteFile(p, mats[nk][pos].file, 0o644); err != nil {
+				return err
+			}
+			if err := os.Chtimes(p, fi.ModTime(), fi.ModTime()); err != nil {
+				return err
+			}
+			continue
+		}
+		if pk != hole {
+			if err := os.RemoveAll(p); err != nil {
+				return err
+			}
+		}
+		if nk != hole {
+			if err := placeEntry(root, storePath, pos, nk); err != nil {
+				return err
+			}
+		}
+	}
+	return os.Chtimes(storePath, di.ModTime(), di.ModTime())
 }
 
 // ---------------------------------------------------------------- reference loader (over the description)
@@ -438,7 +686,7 @@ type expectation struct {
 	Mixed    bool     // at least one entry that is not bad next to a bad one
 }
 
-func reference(c loadCase, entries []int) (expectation, error) {
+func reference(c loadCase, pathKind string, entries []int) (expectation, error) {
 	var e expectation
 	t, ok := lookup(storeTypes, c.Type)
 	if !ok {
@@ -450,6 +698,9 @@ func reference(c loadCase, entries []int) (expectation, error) {
 	}
 	nBad, nNonBad, anyOpen := 0, 0, false
 	for pos, k := range entries {
+		if k == hole {
+			continue
+		}
 		v := kinds[k].CA
 		if c.Type == "tsa" {
 			v = kinds[k].TSA
@@ -480,9 +731,9 @@ func reference(c loadCase, entries []int) (expectation, error) {
 		e.Outcome, e.Reason = "refuse", "invalid-type"
 	case !n.Valid:
 		e.Outcome, e.Reason = "refuse", "invalid-name"
-	case c.Path != "directory":
-		e.Outcome, e.Reason = "refuse", "store-path-"+c.Path
-	case len(entries) == 0:
+	case pathKind != "directory":
+		e.Outcome, e.Reason = "refuse", "store-path-"+pathKind
+	case nBad+nNonBad == 0:
 		e.Outcome, e.Reason = "refuse", "empty-store"
 	case nBad > 0:
 		e.Outcome = "refuse"
@@ -542,7 +793,7 @@ func uniqueKinds(entries []string) string {
 	seen := map[string]bool{}
 	var u []string
 	for _, e := range entries {
-		if !seen[e] {
+		if e != "" && !seen[e] {
 			seen[e] = true
 			u = append(u, e)
 		}
@@ -554,84 +805,44 @@ func uniqueKinds(entries []string) string {
 	return strings.Join(u, "+")
 }
 
-func runCase(scratch string, idx int, c loadCase) (res result) {
-	entries := make([]int, len(c.Entries))
-	for i, n := range c.Entries {
-		if entries[i] = kindIndex(n); entries[i] < 0 {
-			res.infra = fmt.Sprintf("unknown entry kind %q", n)
-			return
-		}
-	}
-	if len(entries) > maxPos {
-		res.infra = "too many entries"
-		return
-	}
-	exp, err := reference(c, entries)
-	if err != nil {
-		res.infra = err.Error()
-		return
-	}
-	// sharded so that parallel cases do not contend for one parent directory
-	root := filepath.Join(scratch, fmt.Sprintf("shard-%02d", idx%64), fmt.Sprintf("case-%07d", idx))
-	_ = os.RemoveAll(root)
-	defer os.RemoveAll(root)
-	placed, err := build(root, c, entries)
-	if err != nil {
-		res.infra = fmt.Sprintf("cannot build %s: %v", c, err)
-		return
-	}
+// judged is the verdict on one load.
+type judged struct {
+	class      string // outcome class without the part/type prefix
+	loaded     bool
+	nontrivial bool
+	orderDiff  bool
+	detail     string
+}
 
-	// ---- the real code
-	ts := truststore.NewX509TrustStore(dir.NewSysFS(root))
-	if c.Prior == 1 {
-		other := truststore.TypeSigningAuthority
-		if c.Type == string(other) {
-			other = truststore.TypeCA
-		}
-		_, _ = ts.GetCertificates(context.Background(), truststore.Type(c.Type), "sibling")
-		_, _ = ts.GetCertificates(context.Background(), other, c.Name)
-	}
-	certs, lerr := ts.GetCertificates(context.Background(), truststore.Type(c.Type), c.Name)
-
+// judge compares one real load with the reference for the state (pathKind, entryNames) of case c.
+func judge(c loadCase, pathKind string, entryNames []string, exp expectation, certs []*x509.Certificate, lerr error, placed []bool, add func(key, format string, a ...any)) (j judged) {
 	tl, _ := lookup(storeTypes, c.Type)
 	nl, _ := lookup(storeNames, c.Name)
-	add := func(key, format string, a ...any) {
-		if c.Prior == 1 {
-			key += ":after-other-loads-on-same-trust-store"
-		}
-		res.findings = append(res.findings, finding{key, fmt.Sprintf(format, a...) + " [" + c.String() + "]"})
-	}
-	typeClass := tl.Label
-	if !tl.Valid {
-		typeClass = "invalid-type"
-	}
-	prefix := c.Part + ":" + typeClass + ":"
-
 	if lerr != nil {
-		res.detail = fmt.Sprintf("refused (%s): %v", errClass(lerr), lerr)
+		j.detail = fmt.Sprintf("refused (%s): %v", errClass(lerr), lerr)
 		if certs != nil {
 			add("load/certificates-returned-with-error", "%d certificates returned together with error %v", len(certs), lerr)
 		}
 		switch exp.Outcome {
 		case "load":
 			label := nl.Label
-			if c.Part == "entries" {
-				label = uniqueKinds(c.Entries)
+			if c.Part != "paths" {
+				label = uniqueKinds(entryNames)
 			}
 			add("load/refused-valid-store:"+tl.Label+":"+label, "a valid store was refused: %v", lerr)
 		case "open":
-			res.class = prefix + "refused:" + exp.Reason
+			j.class = "refused:" + exp.Reason
 		default:
-			res.class = prefix + "refused:" + exp.Reason + ":" + errClass(lerr)
+			j.class = "refused:" + exp.Reason + ":" + errClass(lerr)
 			// non-trivial refusals: something loadable is on disk and must nevertheless be refused
-			res.nontrivial = exp.Mixed || (c.Part == "paths" && c.Path != "missing")
+			j.nontrivial = exp.Mixed || (c.Part == "paths" && pathKind != "missing")
 		}
 		return
 	}
 
 	// ---- success
-	res.loaded = true
-	res.detail = fmt.Sprintf("loaded %d certificates", len(certs))
+	j.loaded = true
+	j.detail = fmt.Sprintf("loaded %d certificates", len(certs))
 	got := make([][]byte, 0, len(certs))
 	for _, x := range certs {
 		if x == nil {
@@ -642,6 +853,11 @@ func runCase(scratch string, idx int, c loadCase) (res result) {
 		for i, d := range decoys {
 			if placed[i] && bytes.Equal(x.Raw, d.Raw) {
 				add("load/decoy-returned:"+decoyNames[i], "a certificate from outside the named store was returned (%s)", x.Subject)
+			}
+		}
+		for _, d := range append([]*x509.Certificate{aliasInter}, aliasRoots...) {
+			if bytes.Equal(x.Raw, d.Raw) {
+				add("load/decoy-returned:alias-store(normalised-type-or-name)", "a certificate of another store (the type/name in another spelling) was returned (%s)", x.Subject)
 			}
 		}
 		if what, ok := hidden[string(x.Raw)]; ok {
@@ -661,7 +877,7 @@ func runCase(scratch string, idx int, c loadCase) (res result) {
 			add("load/accepted-empty-store", "an empty store loaded without error (%d certificates)", len(certs))
 		default:
 			if strings.HasPrefix(exp.Reason, "store-path-") {
-				add("load/accepted-non-directory:"+c.Path, "the store path is %s but the load succeeded with %d certificates", c.Path, len(certs))
+				add("load/accepted-non-directory:"+pathKind, "the store path is %s but the load succeeded with %d certificates", pathKind, len(certs))
 				break
 			}
 			extra, _ := multisetDiff(got, exp.NonBad)
@@ -684,19 +900,115 @@ func runCase(scratch string, idx int, c loadCase) (res result) {
 	if extra == 0 && missing == 0 {
 		for i := range got {
 			if !bytes.Equal(got[i], exp.Certs[i]) {
-				res.orderDiff = true
+				j.orderDiff = true
 			}
 		}
 	}
 	if exp.Outcome == "open" {
-		res.class = prefix + "loaded:" + exp.Reason
+		j.class = "loaded:" + exp.Reason
 	} else {
-		res.class = prefix + "loaded"
-		if res.orderDiff {
-			res.class += "(not-in-file-name-order)"
+		j.class = "loaded"
+		if j.orderDiff {
+			j.class += "(not-in-file-name-order)"
 		}
 	}
-	res.nontrivial = len(c.Entries) >= 2
+	j.nontrivial = len(exp.Certs) >= 2
+	return
+}
+
+func runCase(scratch string, idx int, c loadCase) (res result) {
+	steps := append([]step{{c.Path, c.Entries}}, c.Then...)
+	ents := make([][]int, len(steps))
+	exps := make([]expectation, len(steps))
+	for si, st := range steps {
+		if len(st.Entries) > maxPos {
+			res.infra = "too many entries"
+			return
+		}
+		ents[si] = make([]int, len(st.Entries))
+		for i, n := range st.Entries {
+			if n == "" {
+				ents[si][i] = hole
+			} else if ents[si][i] = kindIndex(n); ents[si][i] < 0 {
+				res.infra = fmt.Sprintf("unknown entry kind %q", n)
+				return
+			}
+		}
+		var err error
+		if exps[si], err = reference(c, st.Path, ents[si]); err != nil {
+			res.infra = err.Error()
+			return
+		}
+	}
+	// sharded so that parallel cases do not contend for one parent directory
+	root := filepath.Join(scratch, fmt.Sprintf("shard-%02d", idx%64), fmt.Sprintf("case-%07d", idx))
+	_ = os.RemoveAll(root)
+	defer os.RemoveAll(root)
+	placed, err := build(root, c, ents[0])
+	if err != nil {
+		res.infra = fmt.Sprintf("cannot build %s: %v", c, err)
+		return
+	}
+	storePath := storePathOf(root, c)
+
+	// ---- the real code: ONE trust-store object per case
+	ts := truststore.NewX509TrustStore(dir.NewSysFS(root))
+	if c.Prior == 1 {
+		_, _ = ts.GetCertificates(context.Background(), truststore.Type(c.Type), "sibling")
+		_, _ = ts.GetCertificates(context.Background(), truststore.Type(otherTypeOf(c)), c.Name)
+		for _, a := range aliasStores(c) {
+			_, _ = ts.GetCertificates(context.Background(), truststore.Type(a[0]), a[1])
+		}
+	}
+	tl, _ := lookup(storeTypes, c.Type)
+	typeClass := tl.Label
+	if !tl.Valid {
+		typeClass = "invalid-type"
+	}
+	var outcomes, details []string
+	for si, st := range steps {
+		if si > 0 {
+			if err := applyStep(root, storePath, steps[si-1].Path, ents[si-1], st.Path, ents[si]); err != nil {
+				res.infra = fmt.Sprintf("cannot change %s (step %d): %v", c, si, err)
+				return
+			}
+		}
+		certs, lerr := ts.GetCertificates(context.Background(), truststore.Type(c.Type), c.Name)
+		add := func(key, format string, a ...any) {
+			if c.Prior == 1 {
+				key += ":after-other-loads-on-same-trust-store"
+			}
+			if si > 0 {
+				key += ":reload-after-change-on-same-trust-store"
+			}
+			what := fmt.Sprintf(format, a...)
+			if si > 0 {
+				what = fmt.Sprintf("load %d, after the store was changed: ", si+1) + what
+			}
+			res.findings = append(res.findings, finding{key, what + " [" + c.String() + "]"})
+		}
+		j := judge(c, st.Path, st.Entries, exps[si], certs, lerr, placed, add)
+		details = append(details, j.detail)
+		if j.loaded {
+			outcomes = append(outcomes, "loaded")
+			res.loaded = true
+		} else {
+			outcomes = append(outcomes, "refused")
+		}
+		res.orderDiff = res.orderDiff || j.orderDiff
+		if len(steps) == 1 {
+			if j.class != "" {
+				res.class = c.Part + ":" + typeClass + ":" + j.class
+			}
+			res.nontrivial = j.nontrivial
+		}
+	}
+	res.detail = strings.Join(details, " / then: ")
+	if len(steps) > 1 {
+		// non-trivial histories: the first load succeeds (there is something to remember) and the change matters
+		res.class = c.Part + ":" + typeClass + ":" + strings.Join(outcomes, "->")
+		res.nontrivial = exps[0].Outcome == "load"
+	}
 	return
 }
 
@@ -708,7 +1020,7 @@ func replay(r *hx.Run, scratch string) {
 		r.Infra("replay: %v", err)
 		return
 	}
-	r.Eval(1)
+	r.Eval(1 + len(c.Then))
 	res := runCase(scratch, 0, c)
 	if res.infra != "" {
 		r.Infra("replay: %s", res.infra)
@@ -726,15 +1038,19 @@ func replay(r *hx.Run, scratch string) {
 func main() {
 	r := hx.New("C13")
 	r.Rule = "part entries: every ordered sequence (= multiset x file-name ordering) of <= N entry kinds x {ca, signingAuthority, tsa} in store \"s\"; " +
-		"part paths: every type x name x object-at-store-path with a fixed good content; each case = one real GetCertificates call on its own scratch root with four decoys. " +
-		"non-trivial = loads of >= 2 files, refusals of a store holding a loadable entry next to a bad one, refusals where an object with good content exists at the store path"
+		"part paths: every type x name x object-at-store-path x alias-store content with a fixed good content; both on a fresh trust-store object and on one that loaded other stores before; " +
+		"part history: every content of <= M entries x every single in-place edit (replace by every other kind / remove / add, modification times put back) x 3 types, all loads on ONE object; " +
+		"part path-history: every ordered pair of objects at the store path. Each case has its own scratch root with four decoys and the alias stores. " +
+		"non-trivial = loads of >= 2 certificates, refusals of a store holding a loadable entry next to a bad one, refusals where an object with good content exists at the store path, histories whose first load succeeds"
 	r.Assumptions = []string{
 		"validity of store types, store names and entry kinds is hand-labelled; the oracle reads the generator's description, never the disk",
 		"the store path is <root>/truststore/x509/<type>/<name> (filepath.Join), as the property's layout anchor states",
 		"'...' is a plain file name (ordinary directory entry); a self-signed non-CA certificate in a tsa store is not classified by the statement (either outcome accepted, exact set still demanded)",
+		"self-signed = signature verifies under the certificate's own key; root = self-signed and issuer name == subject name",
 		"the returned certificates are judged as a multiset of raw encodings; file-name order is recorded, not demanded",
 		"a store meeting every stated condition must load (positive controls; refusal = load/refused-valid-store:...)",
-		"entry alphabet = DESIGN's twelve kinds + two multi-certificate files whose second certificate is the bad one",
+		"a later load on the same trust-store object is judged like a first load against the files on disk at that moment (in-place changes keep the directory's and the file's modification time, as cp -p / rsync -t / tar do)",
+		"entry alphabet = DESIGN's twelve kinds + two multi-certificate files whose second certificate is the bad one + four collision kinds (self-issued but foreign signature, own-key signature but foreign issuer name, corrupted signature)",
 		"we run as root: permission faults (unreadable file/directory) are not produced",
 		"a panic of the loader is an infrastructure error",
 	}
@@ -748,39 +1064,89 @@ func main() {
 		r.Finish()
 	}
 
-	maxLen, nTypes, nNames := 3, quickTypes, quickNames
+	maxLen, histLen, nTypes, nNames := 3, 2, quickTypes, quickNames
+	r.SetDeadline(38 * time.Second)
 	if r.Thorough() {
-		maxLen, nTypes, nNames = maxPos, len(storeTypes), len(storeNames)
+		maxLen, histLen, nTypes, nNames = maxPos, 3, len(storeTypes), len(storeNames)
+		r.SetDeadline(9 * time.Minute)
 	}
 	var cases []loadCase
 	seqs := sequences(len(kinds), maxLen)
 	for _, t := range storeTypes[:3] {
 		for _, s := range seqs {
-			names := make([]string, len(s))
-			for i, k := range s {
-				names[i] = kinds[k].Name
-			}
-			cases = append(cases, loadCase{Part: "entries", Type: t.Value, Name: "s", Path: "directory", Entries: names})
+			cases = append(cases, loadCase{Part: "entries", Type: t.Value, Name: "s", Path: "directory", Entries: kindNames(s)})
 		}
 	}
 	nEntries := len(cases)
 	for _, t := range storeTypes[:nTypes] {
 		for _, n := range storeNames[:nNames] {
 			for _, p := range pathKinds {
-				cases = append(cases, loadCase{Part: "paths", Type: t.Value, Name: n.Value, Path: p, Entries: goodContent})
+				c := loadCase{Part: "paths", Type: t.Value, Name: n.Value, Path: p, Entries: goodContent}
+				cases = append(cases, c)
+				if len(aliasStores(c)) > 0 {
+					c.AliasContent = "root+intermediate"
+					cases = append(cases, c)
+				}
 			}
 		}
 	}
-	// instance reuse: every case again on a trust-store instance that loaded two other stores before
+	nPaths := len(cases) - nEntries
+	// instance reuse: every case again on a trust-store instance that loaded other stores before
 	for _, c := range append([]loadCase(nil), cases...) {
 		c.Prior = 1
 		cases = append(cases, c)
 	}
+	nBase := len(cases)
+	// path histories: the object at the store path changes its kind between two loads on one object
+	for _, t := range storeTypes[:3] {
+		for _, p1 := range pathKinds {
+			for _, p2 := range pathKinds {
+				if p1 == p2 {
+					continue
+				}
+				c := loadCase{Part: "path-history", Type: t.Value, Name: "s", Path: p1, Entries: goodContent, Then: []step{{p2, goodContent}}}
+				if r.Thorough() {
+					c.Then = append(c.Then, step{p1, goodContent})
+				}
+				cases = append(cases, c)
+			}
+		}
+	}
+	nPathHist := len(cases) - nBase
+	nHistSkipped := 0
+	// content histories: one in-place edit between two loads on one object (thorough: and back again)
+	for _, a := range sequences(len(kinds), histLen) {
+		for _, b := range singleEdits(a) {
+			for _, t := range storeTypes[:3] {
+				c := loadCase{Part: "history", Type: t.Value, Name: "s", Path: "directory", Entries: kindNames(a), Then: []step{{"directory", kindNames(b)}}}
+				if !r.Thorough() || len(a) > 2 {
+					// a history in which every state must be refused cannot turn a remembered answer into an accepted
+					// bad store or a refused good one; thorough keeps them up to two entries (remembered partial reads)
+					ea, _ := reference(c, "directory", a)
+					eb, _ := reference(c, "directory", b)
+					if ea.Outcome == "refuse" && eb.Outcome == "refuse" {
+						nHistSkipped++
+						continue
+					}
+				}
+				if r.Thorough() {
+					c.Then = append(c.Then, step{"directory", kindNames(a)})
+				}
+				cases = append(cases, c)
+			}
+		}
+	}
+	nHist := len(cases) - nBase - nPathHist
 	r.Extra["entry_kinds"] = len(kinds)
 	r.Extra["max_entries_per_store"] = maxLen
 	r.Extra["entry_sequences"] = len(seqs)
 	r.Extra["cases_entries_part"] = nEntries
-	r.Extra["cases_paths_part"] = len(cases) - nEntries
+	r.Extra["cases_paths_part"] = nPaths
+	r.Extra["cases_fresh_and_reused_object"] = nBase
+	r.Extra["cases_path_history_part"] = nPathHist
+	r.Extra["cases_history_part"] = nHist
+	r.Extra["histories_not_run(all_states_refused)"] = nHistSkipped
+	r.Extra["history_max_entries_before_edit"] = histLen
 	r.Extra["store_types"] = nTypes
 	r.Extra["store_names"] = nNames
 	r.Extra["path_kinds"] = len(pathKinds)
@@ -795,31 +1161,41 @@ func main() {
 		hits     []hit
 		loaded   int
 		loadedP  int
+		loadedH  int
 		orderDif int
+		skipped  atomic.Int64
 	)
 	r.Parallel(len(cases), func(i int) {
+		if r.Expired() {
+			skipped.Add(1)
+			return
+		}
 		c := cases[i]
 		res := runCase(scratch, i, c)
 		if res.infra != "" {
 			r.Infra("%s", res.infra)
 			return
 		}
-		r.Eval(1)
+		r.Eval(1 + len(c.Then))
 		r.State(1)
+		r.Transition(len(c.Then))
 		if res.class != "" {
 			r.Outcome(res.class)
 		}
 		if res.nontrivial && len(res.findings) == 0 {
 			r.Nontrivial(c.String())
 		}
-		if i%211 == 0 {
+		if i%997 == 0 {
 			r.Sample(map[string]any{"case": c, "result": res.detail})
 		}
 		mu.Lock()
 		if res.loaded && len(res.findings) == 0 {
 			loaded++
-			if c.Part == "paths" {
+			switch c.Part {
+			case "paths":
 				loadedP++
+			case "history":
+				loadedH++
 			}
 		}
 		if res.orderDiff {
@@ -835,11 +1211,15 @@ func main() {
 	for _, h := range hits {
 		r.Violation(h.f.key, h.f.what, cases[h.idx])
 	}
+	if n := skipped.Load(); n > 0 {
+		r.Capped(fmt.Sprintf("internal deadline: %d of %d cases evaluated (parts in order: entries, paths, the same on a reused object, path-history, history)", int64(len(cases))-n, len(cases)))
+	}
 	r.Extra["positive_controls_loaded"] = loaded
 	r.Extra["positive_controls_loaded_paths_part"] = loadedP
+	r.Extra["positive_controls_loaded_history_part"] = loadedH
 	r.Extra["loads_not_in_file_name_order"] = orderDif
-	if len(hits) == 0 && (loaded == 0 || loadedP == 0) {
-		r.Infra("no positive control loaded (entries+paths: %d, paths: %d): the harness cannot tell a loader from a refuser", loaded, loadedP)
+	if len(hits) == 0 && (loaded == 0 || loadedP == 0 || loadedH == 0) {
+		r.Infra("no positive control loaded (all: %d, paths: %d, history: %d): the harness cannot tell a loader from a refuser", loaded, loadedP, loadedH)
 	}
 	r.Finish()
 }
